@@ -220,9 +220,16 @@ def judgeC06 (o : Obs) : Verdict :=
     fail backwards s!"task {t}: status went backwards or changed after completion: {codes}" ++
     fail (rets.length > 1) s!"task {t}: awaiters received different results {rets}" ++
     fail (!cancelCreated.isEmpty && ran) s!"task {t} was cancelled before it started but its code ran" ++
-    cancelRunning.flatMap (fun c => match fin with
-      | some f => fail (ran && f.time > c.time) s!"task {t} cancelled at {c.time} but ended only at {f.time}"
-      | none => fail (ran && !(o.crash != [])) s!"task {t} cancelled at {c.time} while running but never ended") ++
+    -- a cancel of a started task is raised inside it in the same time step: the task ends there, or
+    -- its clean-up code starts there
+    (idx o).flatMap (fun p =>
+      if p.1.tag == "cancel" && arg p.1 0 == t && arg p.1 1 == 2 && ran then
+        let later := (idx o).filter (fun q => q.2 > p.2 && q.1.label == t && (q.1.tag == "tfin" || q.1.tag == "cleanup"))
+        let finishedBefore := (idx o).any (fun q => q.2 < p.2 && q.1.label == t && q.1.tag == "tfin")
+        fail (!finishedBefore && o.crash == [] && !(later.any (fun q => q.1.time == p.1.time)))
+          s!"task {t} was cancelled at {p.1.time} while running but nothing was raised in it in that time step"
+      else []) ++
+    fail (internalCode (o.crash.headD 0)) s!"the run ended with an internal error {o.crash}" ++
     fail (caughtTok.any (fun k => !tokens.contains k)) s!"task {t}: an awaiter saw TaskCancelled with a token {caughtTok} never passed to cancel {tokens}")
 
 /-! ### C07 - until() -/
@@ -231,6 +238,10 @@ def flagTrueAt (o : Obs) (f : Int) (upto : Nat) : Bool :=
   ((idx o).filter (fun p => p.2 < upto && p.1.tag == "setflag" && arg p.1 0 == f)).getLast?.map (fun p => arg p.1 1 == 1) |>.getD false
 
 def judgeC07 (o : Obs) : Verdict :=
+  let hasUntil := o.events.any (fun e => e.tag == "senter" && arg e 2 != 0)
+  let crashInternal := internalCode (o.crash.headD 0) ||
+    (o.crash.headD 0 == 3 && (decodeCodes o.crash.length (o.crash.drop 1)).any (fun c => internalCode (c.headD 0)))
+  fail (hasUntil && crashInternal) s!"a program with until-blocks ended by raising an internal signal/error: run() ended with {o.crash}" ++
   (idx o).flatMap (fun p =>
     let e := p.1
     if e.tag == "senter" && arg e 2 != 0 then
